@@ -111,3 +111,13 @@ contract("timedelta", kind="assumed", pure=True, note="heap-independent",
 # sum of the estimated run time (seconds) of the jobs of a batch
 from pyvc.spec import fold
 fold("est_s", "Ref[JadeJob]", "60 * val(x.estimated_run_minutes)")
+
+# ---- results ------------------------------------------------------------------------------------------
+record("Result", file="jade/result.py", fields={
+    "name": "Name",
+    "return_code": "int",
+    "status": "Name",
+    "exec_time_s": "real",
+    "completion_time": "real",
+    "hpc_job_id": "Opt[Name]",
+}, extra_attrs={"name", "return_code", "status", "exec_time_s", "completion_time", "hpc_job_id", "_fields", "_asdict"})
